@@ -176,10 +176,10 @@ PROPS = {
     "C09": {"engine": "cli", "extra_engines": ["run"], "extra_props": ["C01", "FactsRun"], "modelled": [m.replace("%s", "C09") for m in CLI_MODELLED],
             "assumptions": ["the cache clause (a failed task records nothing) is the theorem C09_failure_not_recorded of the run engine (Props/C01.lean); here it is observed end to end: a task that failed is executed again by the next invocation",
                             "generated commands are deterministic and have no side effect other than appending to the log outside the sandbox"]},
-    "C19": {"engine": "cli", "extra_engines": ["env"], "extra_props": ["FactsClean"], "modelled": [m.replace("%s", "C19") for m in CLI_MODELLED],
+    "C19": {"engine": "cli", "extra_engines": ["env"], "extra_props": ["FactsClean", "FactsApp"], "modelled": [m.replace("%s", "C19") for m in CLI_MODELLED],
             "assumptions": ["task commands have no side effects inside the sandbox (they only append to a log outside it)",
                             "--clean is exercised only on spokfiles without declared outputs (which outputs are removed is C12)"]},
-    "C20": {"engine": "cli", "extra_engines": ["env"], "extra_props": ["C20Json", "FactsReport"], "modelled": [m.replace("%s", "C20") for m in CLI_MODELLED],
+    "C20": {"engine": "cli", "extra_engines": ["env"], "extra_props": ["C20Json", "FactsReport", "FactsApp"], "modelled": [m.replace("%s", "C20") for m in CLI_MODELLED],
             "assumptions": ["--quiet --json together, and listings under --json (stream replaced by a null stream), are compared with the model only, not judged",
                             "the default-task clause is judged when the default task has commands and no file dependencies (otherwise a skip is indistinguishable in the log)"]},
 }
